@@ -351,7 +351,7 @@ pub fn bnd_c09() {
     let inner = [("<ul><li>", "</li></ul>"), ("<h2>", "</h2>"), ("<blockquote>", "</blockquote>"), ("<table><tr><td>", "</td></tr></table>"), ("<ol><li>", "</li></ol>"), ("<p>", "</p>"), ("<div>", "</div>")];
     let inl = ["em", "strong", "code", "s", "a"];
     let mut rep = Report::new("bnd_c09", "outer block (li, blockquote, div, td, ol li, dd) x one or two nested annotating inline elements (em, strong, code, s, a) x inner block \
-        (ul li, h2, blockquote, td, ol li, p, div) with unique tokens before, inside and after the inner block; widths 4/8/13/20/80; rich decorator: every token carries exactly the annotations of its annotating ancestors, outermost first");
+        (ul li, h2, blockquote, td, ol li, p, div) with unique tokens before, inside and after the inner block; widths 4/8/13/20/80; rich decorator: every token carries exactly the annotations of its annotating ancestors, outermost first; plus 4 <pre> documents with inline elements");
     for (oo, oc) in outer { for i1 in inl { for i2 in ["", "em", "strong", "code"] { for (io, ic) in inner {
         if i2 == i1 { continue; }
         // <outer> pre <i1> [<i2>] aa <inner> bb </inner> cc [</i2>] </i1> post </outer>
@@ -384,6 +384,25 @@ pub fn bnd_c09() {
             }
         }
     }}}}
+    // inline elements inside <pre> (the Preformat annotation itself is filtered out before comparing)
+    let pres: [(&str, Vec<(&str, Vec<RichAnnotation>)>); 4] = [
+        ("<pre><code>aa bb</code></pre>", vec![("aa", vec![RichAnnotation::Code])]),
+        ("<pre>aa <em>bb</em> cc <strong>dd</strong></pre>", vec![("aa", vec![]), ("bb", vec![RichAnnotation::Emphasis]), ("cc", vec![]), ("dd", vec![RichAnnotation::Strong])]),
+        ("<pre><em>aa</em><strong>bb</strong></pre>", vec![("aa", vec![RichAnnotation::Emphasis]), ("bb", vec![RichAnnotation::Strong])]),
+        ("<ul><li><pre><code>aa</code>\n<a href=\"u\">bb</a></pre></li></ul>", vec![("aa", vec![RichAnnotation::Code]), ("bb", vec![RichAnnotation::Link("u".to_string())])]),
+    ];
+    for (html, toks) in pres { for width in [4usize, 20, 80] {
+        let input = format!("width={} html={}", width, html);
+        rep.case(&input);
+        let h = html.to_string();
+        let lines = match panic::catch_unwind(move || config::rich().lines_from_read(h.as_bytes(), width)) { Ok(Ok(l)) => l, Ok(Err(_)) => continue, Err(_) => { rep.found(&input, "panic"); continue; } };
+        for (tok, want) in &toks {
+            for l in &lines { for ts in l.tagged_strings() { if ts.s.contains(tok) {
+                let got: Vec<RichAnnotation> = ts.tag.iter().filter(|a| !matches!(a, RichAnnotation::Preformat(_))).cloned().collect();
+                if got != *want { rep.found(&input, &format!("token {:?} carries {:?}, expected {:?}", tok, got, want)); }
+            }}}
+        }
+    }}
     rep.finish();
 }
 
@@ -399,6 +418,13 @@ fn seed() -> u64 { std::env::var("VERIF_SEED").ok().and_then(|s| s.parse().ok())
 
 const CELLS: [&str; 8] = ["", "aa", "bb cc", "longerword", "\u{4e2d}\u{6587}", "x1<br>y2", "dd ee ff gg", "q"];
 fn gen_table(r: &mut Lcg, depth: u32, tok: &mut u32) -> String {
+    if depth == 0 && r.below(10) == 0 {
+        // every row has the same span pattern (the column boundaries inside a spanning cell exist in no row); cells may hold one character
+        let pattern: Vec<usize> = match r.below(4) { 0 => vec![2], 1 => vec![2, 1], 2 => vec![1, 2], _ => vec![3, 1] };
+        let mut s = String::from("<table>");
+        for _ in 0..1 + r.below(3) { s.push_str("<tr>"); for &sp in &pattern { let c = ["z", "y", "xx", ""][r.below(4) as usize]; s.push_str(&format!("<td colspan={}>{}</td>", sp, c)); } s.push_str("</tr>"); }
+        return s + "</table>";
+    }
     let rows = 1 + r.below(3) as usize;
     let cols = 1 + r.below(3) as usize;
     let mut s = String::from("<table>");
@@ -818,7 +844,7 @@ fn greedy(words: &[String], w: usize) -> Vec<String> {
 pub fn bnd_c04() {
     let (npar, maxw) = if thorough() { (1200u32, 40usize) } else { (250u32, 30usize) };
     let mut rep = Report::new("bnd_c04", &format!("{} seeded paragraphs of 1..12 words (ASCII words of 1..9 letters, wide-character words, words with a combining mark), split arbitrarily across text nodes and \
-        em/strong/code/span elements, white-space runs of spaces/newlines/tabs; widths 1..={}; undecorated plain rendering: the lines equal those of a reference greedy wrapper, \
+        em/strong/code/span elements, white-space runs of spaces/newlines/tabs (sometimes alone inside an inline element); widths 1..={}; undecorated plain rendering: the lines equal those of a reference greedy wrapper, \
         an error is returned exactly when a wide character meets width 1; also under max_wrap_width m < width (effective width m)", npar, maxw));
     let mut r = Lcg(0x6a09e667f3bcc908 ^ seed());
     for _ in 0..npar {
@@ -838,7 +864,11 @@ pub fn bnd_c04() {
         let mut html = String::from("<p>");
         let mut open: Vec<&str> = vec![];
         for (i, wd) in words.iter().enumerate() {
-            if i > 0 { html.push_str([" ", "\n", "  ", " \t ", "\n  "][r.below(5) as usize]); }
+            if i > 0 {
+                let ws = [" ", "\n", "  ", " \t ", "\n  "][r.below(5) as usize];
+                // sometimes the separating white space is the only content of an inline element
+                if r.below(6) == 0 { let el = ["em", "strong", "code", "span"][r.below(4) as usize]; html.push_str(&format!("<{}>{}</{}>", el, ws, el)); } else { html.push_str(ws); }
+            }
             let cs: Vec<char> = wd.chars().collect();
             let cut = if cs.len() > 1 && r.below(4) == 0 { 1 + r.below(cs.len() as u64 - 1) as usize } else { cs.len() };
             // never cut between a letter and its combining mark
@@ -951,7 +981,7 @@ pub fn bnd_c15() {
     for i in 0..ndoc {
         let mut tok = 0;
         let mut html = String::new();
-        if i % 2 == 0 { for _ in 0..1 + r.below(2) { html.push_str(&gen_block(&mut r, &mut tok, 0)); } html.push_str("<p>a <s>struck text</s> b</p>"); }
+        if i % 2 == 0 { for _ in 0..1 + r.below(2) { html.push_str(&gen_block(&mut r, &mut tok, 0)); } html.push_str("<p>a <s>struck text</s> b <s>two  spaces\n   and a newline</s> c</p>"); }
         else {
             html.push_str("<table>");
             for _ in 0..1 + r.below(3) { html.push_str("<tr>"); for _ in 0..2 { tok += 1; if r.below(2) == 0 { html.push_str(&format!("<td>c{} <a href=\"http://h/{}\">link{}</a> t</td>", tok, tok, tok)); } else if r.below(3) == 0 { html.push_str(&format!("<td>cell{} with a much longer run of words than any width used here so that estimates exceed the width</td>", tok)); } else { html.push_str(&format!("<td>cell{} words here</td>", tok)); } } html.push_str("</tr>"); }
